@@ -55,6 +55,14 @@ def step (_ : Unit) (ws : List String) : Unit × String :=
           let (t, s) := runInternetWithTimeout cap rq d false
           ((), s!"ret {t} {showStatus s}")
         | none => ((), "bad-op")
+  | ["statusd", timeout, reqs] =>
+    -- the timeout handed to `run_internet` directly (no outer `timeout(d + 1 s)` guard)
+    match (parseList reqs).mapM parseReq, timeout.toNat? with
+    | some rq, some d =>
+      match runInternet Elvis.Gen.shutdownChannelCapacity rq (some d) false with
+      | some (t, s) => ((), s!"ret {t} {showStatus s}")
+      | none => ((), "ret never")
+    | _, _ => ((), "bad-op")
   | _ => ((), "bad-op")
 
 def dispatch (sub : String) (i o : IO.FS.Stream) : Option (IO Unit) :=
